@@ -227,6 +227,10 @@ type reusableConn struct {
 	closeOnce   sync.Once
 	closeNotify chan struct{}
 	closeErr    error
+
+	// readLoopDone is closed when readLoop returned. This happens (shortly) after
+	// the connection was closed. No reply will be delivered after that.
+	readLoopDone chan struct{}
 }
 
 // return nil if transport was closed
@@ -235,6 +239,8 @@ func (t *ReuseConnTransport) newReusableConn(c NetConn) *reusableConn {
 		c:           c,
 		t:           t,
 		closeNotify: make(chan struct{}),
+
+		readLoopDone: make(chan struct{}),
 	}
 
 	t.m.Lock()
@@ -253,6 +259,7 @@ var (
 )
 
 func (c *reusableConn) readLoop() {
+	defer close(c.readLoopDone)
 	for {
 		resp, err := dnsutils.ReadRawMsgFromTCP(c.c)
 		if err != nil {
@@ -363,8 +370,11 @@ func (c *reusableConn) exchange(ctx context.Context, q *[]byte) (*[]byte, error)
 	case resp := <-respChan:
 		binary.BigEndian.PutUint16(*resp, orgId)
 		return resp, nil
-	case <-c.closeNotify:
-		// A reply may have been delivered right before the connection was closed.
+	case <-c.readLoopDone:
+		// Note: Don't give up as soon as the connection was closed (closeNotify).
+		// The reader may have read the reply already and be about to hand it over.
+		// Once the reader returned (it does when the connection was closed), the
+		// reply was either delivered or will never be.
 		select {
 		case resp := <-respChan:
 			binary.BigEndian.PutUint16(*resp, orgId)
